@@ -218,81 +218,17 @@ or compaction - that contains the full exchange `join r a` for every ordered pai
 it, `C03_converges_all` makes every view caught up, `C04_mirror_system` makes every routing-table row
 the owner's truth, and that is the hypothesis `Settled` of `C01_settled`. -/
 
-open Piko.Gossip in
-theorem sysAllowed_append : ∀ (sched ops : List SysOp), SysAllowed (sched ++ ops) → SysAllowed ops
-  | [], _, h => h
-  | _ :: sched, ops, h => sysAllowed_append sched ops h.1
-
 /-- what `C01_settled_system` assumes about the configuration and the failure detectors at the end
 of the settle schedule: nobody has left or is suspected, every node advertises non-empty addresses,
 proxy addresses are pairwise distinct, and no endpoint has 2^63 upstreams on one node -/
 structure SysHealthy (s : Sys) : Prop where
   notLeft : ∀ n x, s.node n = some x → (Gossip.own x.mgr.gossip).left = false
-  reachable : ∀ n x a V, s.node n = some x → x.mgr.gossip.nodes.find a = some V → V.unreachable = false
+  reachable : ∀ n x a V, s.node n = some x → x.mgr.gossip.nodes.find a = some V → a ≠ n → V.unreachable = false
   addrs : ∀ n x, s.node n = some x →
     x.mgr.cluster.localNode.proxyAddr ≠ "" ∧ x.mgr.cluster.localNode.adminAddr ≠ ""
   small : ∀ n x e, s.node n = some x → (x.mgr.registry e).length < 2 ^ 63
   distinct : ∀ a b xa xb, s.node a = some xa → s.node b = some xb →
     xa.mgr.cluster.localNode.proxyAddr = xb.mgr.cluster.localNode.proxyAddr → a = b
-
-open Piko.Gossip in
-/-- after a settle schedule every node's view of every other node is caught up -/
-theorem C01_system_caught_up (ops sched : List SysOp) (hall : SysAllowed (sched ++ ops))
-    (hq : ∀ op ∈ sched, op.quiet.isSome = true)
-    (hjoins : ∀ r a, r ≠ a → ((Sys.runRev ops).node r).isSome = true → ((Sys.runRev ops).node a).isSome = true →
-      ∃ now, SysOp.join r a true now ∈ sched)
-    (r a : String) (hne : r ≠ a) (xr xa : SysNode)
-    (hr : (Sys.runRev (sched ++ ops)).node r = some xr) (ha : (Sys.runRev (sched ++ ops)).node a = some xa) :
-    ∃ V, xr.mgr.gossip.nodes.find a = some V ∧ V.version = (own xa.mgr.gossip).version := by
-  obtain ⟨sdr1, gr1, hsr1, hgr1, rfl⟩ := Sys.node_eq hr
-  obtain ⟨sda1, ga1, hsa1, hga1, rfl⟩ := Sys.node_eq ha
-  have hall0 := sysAllowed_append sched ops hall
-  have hinv0 := sysInv_runRev ops hall0
-  -- both nodes existed when the schedule started
-  have hdom := Sys.side_dom_quiet sched ops hq
-  have hnode0 : ∀ k sd1, (Sys.runRev (sched ++ ops)).side.find k = some sd1 →
-      ∃ sd0 g0, (Sys.runRev ops).side.find k = some sd0 ∧ (Sys.runRev ops).net.nodes.find k = some g0 := by
-    intro k sd1 hk
-    have := hdom k
-    rw [hk] at this
-    cases hs0 : (Sys.runRev ops).side.find k with
-    | none => rw [hs0] at this; cases this
-    | some sd0 =>
-      obtain ⟨g0, hg0⟩ := hinv0.net_of_side hs0
-      exact ⟨sd0, g0, rfl, hg0⟩
-  obtain ⟨sdr0, gr0, hsr0, hgr0⟩ := hnode0 r sdr1 hsr1
-  obtain ⟨sda0, ga0, hsa0, hga0⟩ := hnode0 a sda1 hsa1
-  -- the gossip histories
-  have hN := Sys.netHist_append_quiet sched ops hq
-  have hallN : AllowedRev (sched.filterMap SysOp.quiet ++ Sys.netHist ops) := by
-    rw [← hN]; exact allowedRev_netHist _ hall
-  have hqN : ∀ op ∈ sched.filterMap SysOp.quiet, Quiet op := by
-    intro g hg
-    obtain ⟨op, _, hop⟩ := List.mem_filterMap.mp hg
-    exact Sys.quiet_isQuiet hop
-  have hnodeSome : ∀ k g, (runRev (Sys.netHist ops)).net.nodes.find k = some g → ((Sys.runRev ops).node k).isSome = true := by
-    intro k g hk
-    rw [← Sys.runRev_net] at hk
-    obtain ⟨sd, hsd⟩ := hinv0.side_of_net hk
-    simp [Sys.node, hsd, hk]
-  have hschedN : ∀ r a sr sa, r ≠ a → (runRev (Sys.netHist ops)).net.nodes.find r = some sr →
-      (runRev (Sys.netHist ops)).net.nodes.find a = some sa → (own sa).entries ≠ [] →
-      ∃ now, Op.join r a true now ∈ sched.filterMap SysOp.quiet := by
-    intro r a sr sa hne hr ha _
-    obtain ⟨now, hj⟩ := hjoins r a hne (hnodeSome r sr hr) (hnodeSome a sa ha)
-    exact ⟨now, List.mem_filterMap.mpr ⟨_, hj, rfl⟩⟩
-  -- the owner publishes at least its proxy address
-  have hent : (own ga0).entries ≠ [] := by
-    have hp := (hinv0.node a sda0 ga0 hsa0 hga0).paddr
-    intro h0
-    simp [liveValue, h0] at hp
-  obtain ⟨sr', sa', V, h1, h2, h3, h4, h5, _⟩ :=
-    C03_converges_all hallN hqN hschedN r a gr0 ga0 hne
-      (by rw [← Sys.runRev_net]; exact hgr0) (by rw [← Sys.runRev_net]; exact hga0) hent
-  rw [← hN, ← Sys.runRev_net] at h1 h2
-  rw [hgr1] at h1; cases h1
-  rw [hga1] at h2; cases h2
-  exact ⟨V, h4, by rw [h5, h3]⟩
 
 open Piko.Gossip Piko.Cluster in
 /-- **The system settles**: after a settle schedule on a healthy cluster the routing world of the
@@ -304,7 +240,7 @@ theorem C01_system_settles (ops sched : List SysOp) (hall : SysAllowed (sched ++
     (hh : SysHealthy (Sys.runRev (sched ++ ops))) :
     Settled (Sys.runRev (sched ++ ops)).world ∧ NoGone (Sys.runRev (sched ++ ops)).world := by
   have hinv := sysInv_runRev _ hall
-  have hcaught := C01_system_caught_up ops sched hall hq hjoins
+  have hcaught := C04_caught_up_after_settle ops sched hall hq hjoins
   -- the mirror, for every ordered pair of nodes of the final state
   have hmirror : ∀ n k xn xk, n ≠ k → (Sys.runRev (sched ++ ops)).node n = some xn →
       (Sys.runRev (sched ++ ops)).node k = some xk →
@@ -317,7 +253,7 @@ theorem C01_system_settles (ops sched : List SysOp) (hall : SysAllowed (sched ++
     obtain ⟨_, row, hrow, _, hid, hp, _, hes, hst⟩ := C04_mirror_system _ hall n k hnk xn xk hn hk V hV hver
       (hh.notLeft k xk hk) (hh.addrs k xk hk).1 (hh.addrs k xk hk).2 (fun e => hh.small k xk e hk)
     refine ⟨row, hrow, hid, ?_, hp, hes⟩
-    rw [hst, hh.reachable n xn k V hn hV]; rfl
+    rw [hst, hh.reachable n xn k V hn hV (fun e => hnk e.symm)]; rfl
   refine ⟨⟨?_, ?_, ?_, ?_⟩, fun _ _ _ => rfl⟩
   · -- every manager carries its own id
     intro n m hm
